@@ -91,4 +91,29 @@ def ReadsAs : List Kind → List Kind → Prop
   | k :: ks, r :: rs => passes k r = true ∧ ReadsAs ks rs
   | _, _ => False
 
+/-- `s` is a subtree of `t` (possibly `t` itself) -/
+inductive Tree.Sub : Tree → Tree → Prop
+  | refl (t : Tree) : Tree.Sub t t
+  | child {s c : Tree} {r : RuleType} {cs : List Tree} : c ∈ cs → Tree.Sub s c → Tree.Sub s (.node r cs)
+
+/-- what a `Tags` node attaches to: its parent rule, and the symbol that must follow it there -/
+def tagsAttach : List (RuleType × Sym) :=
+  [(.FeatureHeader, .tok .FeatureLine), (.RuleHeader, .tok .RuleLine),
+   (.ScenarioDefinition, .rule .Scenario), (.ExamplesDefinition, .rule .Examples)]
+
+/-- a line that was skipped as ignorable or could have been -/
+def IgnorableLeaf (G : Grammar) (c : Tree) : Prop := ∃ k, c = .leaf k ∧ G.ignored.contains k = true
+
+/-- tags attach forward: wherever a `Tags` node occurs among the children of a node `r`,
+    * everything before it is a line, and only a `# language` header or ignorable lines
+      (comments, blank lines) — in particular no other node and no keyword line;
+    * after it come ignorable lines at most and then the thing the tags belong to: `r` is
+      `FeatureHeader` / `RuleHeader` and that is the `Feature:` / `Rule:` line, or `r` is
+      `ScenarioDefinition` / `ExamplesDefinition` and that is the `Scenario` / `Examples` node. -/
+def TagsAttachForward (G : Grammar) (t : Tree) : Prop :=
+  ∀ r cs, Tree.Sub (.node r cs) t → ∀ pre ts post, cs = pre ++ .node .Tags ts :: post →
+    (∀ c ∈ pre, ∃ k, c = .leaf k ∧ (k = .Language ∨ G.ignored.contains k = true)) ∧
+    ∃ ign nxt post', post = ign ++ nxt :: post' ∧ (∀ c ∈ ign, IgnorableLeaf G c) ∧
+      (r, nxt.sym) ∈ tagsAttach
+
 end GV.Spec
